@@ -1,5 +1,6 @@
 import GgrsModel.Driver.Codec
 import GgrsModel.Driver.Accept
+import GgrsModel.Driver.Monitors
 
 open Ggrs.Driver
 
@@ -21,8 +22,40 @@ def runAccept : IO UInt32 := do
   let st := finishBlock st
   for m in st.mismatches do
     IO.println m.text
+  for n in st.notes do
+    IO.println n
   IO.println s!"SUMMARY scenarios={st.scenarios} sessions={st.sessions} blocks={st.blocks} accepted={st.accepted} diverged={st.diverged.length}"
   return (if st.mismatches.isEmpty then 0 else 1)
+
+def scenStats (cx : Ctx) : String :=
+  let sims := cx.sims.flatMap (·.2)
+  let resims := (sims.filter (·.nth > 1)).length
+  let loads := cx.sc.calls.foldl (fun n c => n + (c.gtoks.filter fun t => match t with | .l .. => true | _ => false).length) 0
+  let depth := cx.sc.calls.foldl (fun d c =>
+    let advs := (c.gtoks.filter fun t => match t with | .a _ => true | _ => false).length
+    let hasLoad := c.gtoks.any fun t => match t with | .l .. => true | _ => false
+    if hasLoad then max d (advs - 1) else d) 0
+  let advCalls := (cx.sc.calls.toList.filter (·.isAdvOk)).length
+  let stalls := (cx.sc.calls.toList.filter fun c => c.isAdvOk && !(c.gtoks.any fun t => match t with | .a _ => true | _ => false)).length
+  let predicted := (sims.filter fun s => s.inputs.any (·.2 == 'P')).length
+  let maxFrame := sims.foldl (fun m s => max m s.frame) 0
+  s!"STATS scenario={cx.sc.name} sessions={cx.sc.sessions.length} calls={cx.sc.calls.size} advcalls={advCalls} sims={sims.length} resims={resims} loads={loads} maxdepth={depth} stalls={stalls} predicted={predicted} maxframe={maxFrame} disconnect={cx.anyDisconnect} panic={cx.anyPanic}"
+
+/-- `monitor P1,P2,...`: reads a trace on stdin, prints FINDING lines, per-scenario STATS. -/
+def runMonitors (props : List String) : IO UInt32 := do
+  let stdin ← IO.getStdin
+  let ps ← foldLines stdin ({} : ParseState) 1 parseLine
+  let ps := ps.flushScen
+  let mut n := 0
+  for sc in ps.done.reverse do
+    let cx := mkCtx sc
+    IO.println (scenStats cx)
+    for p in props do
+      for f in runMonitor p cx do
+        IO.println f.text
+        n := n + 1
+  IO.println s!"SUMMARY scenarios={ps.done.length} findings={n}"
+  return (if n == 0 then 0 else 1)
 
 def main (args : List String) : IO UInt32 := do
   let stdin ← IO.getStdin
@@ -30,6 +63,7 @@ def main (args : List String) : IO UInt32 := do
   match args with
   | ["codec"] => loopLines stdin stdout codecLine; return 0
   | ["accept"] => runAccept
+  | ["monitor", props] => runMonitors (props.splitOn ",")
   | _ =>
     IO.eprintln "usage: ggrs_model codec | accept"
     return 2
